@@ -197,7 +197,7 @@ def main(argv: Optional[List[str]] = None) -> int:
           f"violations={len(violations)} known={len(known_matched)} advisories={len(ctx.advisories)} "
           f"modules={len(ctx.modules_analysed)} wall={time.time() - t0:.2f}s")
     if args.json:
-        print(json.dumps([f.to_json() for f in ctx.findings], indent=1))
+        print("JSON " + json.dumps([f.to_json() for f in ctx.findings]))
     if not args.no_evidence and replay_key is None:
         write_evidence(ctx, time.time() - t0, len(violations), known_matched, st,
                        explanation=getattr(mod, "EXPLANATION", ""), path=args.evidence_path)
